@@ -93,6 +93,9 @@ def _simple(e):
         return _simple(e.value) and _simple(e.slice)
     if isinstance(e, ast.UnaryOp) and isinstance(e.operand, ast.Constant):
         return True
+    if isinstance(e, ast.Tuple) and isinstance(e.ctx, ast.Load):
+        # the packed surplus arguments of a *args helper
+        return all(_simple(x) for x in e.elts)
     return False
 
 
@@ -203,6 +206,7 @@ class Helper:
         for arg, d in zip(a.kwonlyargs, a.kw_defaults):
             if d is not None:
                 self.defaults[arg.arg] = d
+        self.vararg = a.vararg.arg if a.vararg is not None else None
         self.is_method = owner[0] == "class"
         from .astutil import live
         self.body = _fold_early_returns(live(_strip_doc(node.body), node))
@@ -216,8 +220,13 @@ class Helper:
     def _classify(self):
         n = self.node
         a = n.args
-        if n.decorator_list or a.vararg or a.kwarg or isinstance(
+        if n.decorator_list or a.kwarg or isinstance(
                 n, ast.AsyncFunctionDef):
+            return False
+        if a.vararg is not None and (a.kwonlyargs or any(
+                isinstance(x, ast.Name) and x.id == a.vararg.arg
+                and isinstance(x.ctx, (ast.Store, ast.Del))
+                for x in ast.walk(n))):
             return False
         if not all(_simple(d) for d in self.defaults.values()):
             return False
@@ -599,10 +608,14 @@ class Inliner:
         if any(isinstance(a, ast.Starred) for a in call.args) or any(
                 k.arg is None for k in call.keywords):
             return None
-        if len(call.args) > len(params):
+        if len(call.args) > len(params) and h.vararg is None:
             return None
         for p, a in zip(params, call.args):
             out[p] = a
+        if h.vararg is not None:
+            # def f(x, *rest): the surplus positional arguments as a tuple
+            out[h.vararg] = ast.Tuple(
+                elts=list(call.args[len(params):]), ctx=ast.Load())
         for k in call.keywords:
             if k.arg not in params or k.arg in out:
                 return None
